@@ -477,7 +477,9 @@ class WARCRecorder(object):
 
         raw_file_record_size_str = str(raw_file_record_size)
         raw_file_offset_str = str(raw_file_offset)
-        filename = os.path.basename(self._warc_filename)
+        # The line is delimited by spaces.
+        filename = os.path.basename(self._warc_filename) \
+            .replace('%', '%25').replace(' ', '%20')
         record_id = record.fields[WARCRecord.WARC_RECORD_ID]
         fields_strs = (
             url,
